@@ -128,6 +128,11 @@ class Interp:
             raise PyRaise("TypeError", "too many positional arguments", self.ctx.cur_line)
         for p, v in zip(params, pos):
             env[p] = v
+        kw = dict(kw)
+        va_named = None
+        if top and node.args.vararg and node.args.vararg.arg in kw:
+            # the function under verification: the *args tuple is given by name (possibly of symbolic length)
+            va_named = kw.pop(node.args.vararg.arg)
         for k, v in kw.items():
             if k in env and k in params[: len(pos)]:
                 raise PyRaise("TypeError", f"multiple values for {k}", self.ctx.cur_line)
@@ -149,7 +154,7 @@ class Interp:
                     raise PyRaise("TypeError", f"missing keyword {a.arg}", self.ctx.cur_line)
                 env[a.arg] = self.eval(d, env)
         if node.args.vararg:
-            env[node.args.vararg.arg] = tuple(pos[len(params):])
+            env[node.args.vararg.arg] = tuple(pos[len(params):]) if va_named is None else va_named
         self.depth += 1
         saved_line = self.ctx.cur_line
         if self.depth > self.max_depth:
@@ -359,6 +364,9 @@ class Interp:
             elif isinstance(seq, Arr) and seq.ndim == 1:
                 n = seq.shape[0]
                 item = seq.fn
+            elif isinstance(seq, SymList):
+                n = seq.length
+                item = seq.item
             else:
                 raise PathAbort("for loop over unsupported symbolic iterable", s.lineno)
             if T.is_sym(n):
@@ -935,6 +943,12 @@ class Interp:
         if isinstance(obj, Rec):
             return self.call_method(obj, "__getitem__", [key], {})
         if isinstance(obj, SymList):
+            if isinstance(key, slice):
+                if key.step is None and key.stop is None and isinstance(key.start, int) and key.start >= 0:
+                    lo, n_ = key.start, obj.length
+                    ln = T.Ite(T.ge(n_, lo), T.sub(n_, lo), 0) if T.is_sym(n_) else max(n_ - lo, 0)
+                    return SymList(ln, lambda i, obj=obj, lo=lo: obj.item(T.add(i, lo)), kind=obj.kind)
+                raise PathAbort("slice form of a symbolic-length sequence", ctx.cur_line)
             k = N.norm_index(ctx, key, obj.length)
             return obj.item(k)
         if isinstance(obj, Opaque):
